@@ -423,6 +423,8 @@ func plans() []plan {
 			if k1 != "close" && k2 != "close" {
 				ops = append(ops, op{Kind: "close"})
 			}
+			// a second Close overlapping the first one: it, too, must wait for the running callback
+			ops = append(ops, op{Kind: "close2"})
 			ops = append(ops, op{Kind: "gate-check-close-blocked"}, op{Kind: "gate-release"})
 			ps = append(ps, plan{mode: "gated", ops: ops, desc: "gated+" + k1 + "+" + k2})
 		}
@@ -467,7 +469,7 @@ func TestCheck(t *testing.T) {
 	rec = mon.Open("C06")
 	defer rec.Close()
 	rec.Note("rule", "a case is one history run against the real Processor in a synctest bubble: (directed) the loop parked at each hook point x hit 1-2 x each placed operation kind (pairs of kinds as well); (random) 4-24 seeded Enqueue/Dequeue/Sleep/Close operations in lock-step with seeded hook parking; (racing) 2-4 goroutines issuing operations at the same virtual instants. Non-trivial = at least one callback was observed or an item was removed before running; distinct = distinct operation list.")
-	rec.Note("require", []string{"park.loop.start", "park.loop.empty", "park.loop.peeked", "park.loop.armed", "park.loop.fired", "park.exec.popped", "callbacks", "placed.close", "placed.enq", "placed.deq", "racing.same_instant_ops", "gated.close_waited_for_callback"})
+	rec.Note("require", []string{"park.loop.start", "park.loop.empty", "park.loop.peeked", "park.loop.armed", "park.loop.fired", "park.exec.popped", "callbacks", "placed.close", "placed.enq", "placed.deq", "racing.same_instant_ops", "gated.close_waited_for_callback", "placed.second_close"})
 	ps := plans()
 	rec.Planned(len(ps))
 	for idx, pl := range ps {
@@ -496,20 +498,33 @@ func runSeq(t *testing.T, idx int, pl plan) {
 		queue.VerifHook.Store(&h)
 		defer queue.VerifHook.Store(nil)
 		w.p = queue.NewProcessor[string, *item](w.callback)
-		closeDone := make(chan struct{})
+		var closeDones []chan struct{}
 		closing := false
+		// doClose may be called several times (overlapping Close calls): closeCall is the first
+		// call, closeRet the EARLIEST return - "once Close returns" holds for every caller.
 		doClose := func() {
 			closing = true
 			w.mu.Lock()
-			w.closeCall = w.stamp()
+			if w.closeCall == 0 {
+				w.closeCall = w.stamp()
+			}
 			w.mu.Unlock()
+			d := make(chan struct{})
+			closeDones = append(closeDones, d)
 			go func() {
 				w.p.Close()
 				w.mu.Lock()
-				w.closeRet = w.stamp()
+				if w.closeRet == 0 {
+					w.closeRet = w.stamp()
+				}
 				w.mu.Unlock()
-				close(closeDone)
+				close(d)
 			}()
+		}
+		waitCloses := func() {
+			for _, d := range closeDones {
+				<-d
+			}
 		}
 		// settle: quiesce; if the loop parked, issue the placed operations and resume
 		placedMode := false
@@ -564,6 +579,10 @@ func runSeq(t *testing.T, idx int, pl plan) {
 					parkOps = append(parkOps, "deq")
 				}
 				w.deq(o.Key)
+			case "close2":
+				// a second, overlapping Close call
+				rec.Count("placed.second_close", 1)
+				doClose()
 			case "close":
 				if closing {
 					continue
@@ -646,7 +665,7 @@ func runSeq(t *testing.T, idx int, pl plan) {
 			if !closing {
 				doClose()
 			}
-			<-closeDone
+			waitCloses()
 			return
 		}
 		// tail: let every due time pass (1h offsets included), then nothing may be left
@@ -662,7 +681,7 @@ func runSeq(t *testing.T, idx int, pl plan) {
 		if !closing {
 			doClose()
 		}
-		<-closeDone
+		waitCloses()
 		synctest.Wait()
 		w.judge(true)
 		// Enqueue after Close is ignored
